@@ -24,6 +24,8 @@ type MultiLine struct {
 
 	//go routine exit chan
 	exitChan chan struct{}
+	//start once
+	startOnce sync.Once
 	//stop once
 	stopOnce sync.Once
 }
@@ -83,9 +85,11 @@ func (c *MultiLine) AsyncCall(ctx context.Context, callCtx *CallCtx) (interface{
 
 // Run : run all queue msg handler
 func (c *MultiLine) Run() {
-	for i := 0; i < c.slotSize; i++ {
-		go c.popLoop(i)
-	}
+	c.startOnce.Do(func() {
+		for i := 0; i < c.slotSize; i++ {
+			go c.popLoop(i)
+		}
+	})
 }
 
 // Stop : stop
